@@ -65,7 +65,10 @@ def _run_case(case):
             kw["keep_last_line"] = case.get("keep_last_line", False)
         if not case.get("hide_cursor", True) or case["w"] % 2:
             kw["hide_cursor"] = case.get("hide_cursor", True)
-        win = CursorAwareWindow(out_stream=out, in_stream=inp, **kw) if case["w"] % 3 else CursorAwareWindow(out, inp, **kw)
+        win, e = call(lambda: CursorAwareWindow(out_stream=out, in_stream=inp, **kw) if case["w"] % 3 else CursorAwareWindow(out, inp, **kw))
+        if e is not None:
+            res.viol("constructor_raised", error=exc_str(e), case=case)
+            return res
         entry_row = term.r
         _, e = call(win.__enter__)
         if e is not None:
